@@ -6,8 +6,15 @@ import DirectVerif.Model.Sampler
 Fixed scripts: a semantically equal rewrite of the Python keeps them provable; a changed formula,
 comparison or a write to `self` inside `__iter__` does not.
 -/
+set_option linter.unusedSimpArgs false
 namespace DirectVerif.Bridge.C13
 open DirectVerif DirectVerif.Sampler DirectVerif.Gen.C13
+
+/-- closes `b₁ = b₂` for Boolean combinations of integer comparisons that are *semantically* equal -/
+macro "bool_bridge" : tactic =>
+  `(tactic| (first | rfl | (rw [Bool.eq_iff_iff]
+                            simp only [Bool.or_eq_true, Bool.and_eq_true, Bool.not_eq_true', beq_iff_eq,
+                              bne_iff_ne, decide_eq_true_eq, beq_eq_false_iff_ne, ne_eq] <;> omega)))
 
 theorem natCast_beq (a b : Nat) : ((a : Int) == (b : Int)) = (a == b) := by
   rw [Bool.eq_iff_iff]; simp only [beq_iff_eq]; omega
@@ -56,11 +63,11 @@ theorem chunkStopI_cast (n k idx : Nat) :
 
 theorem bvs_yield_cond_eq (lenb bs idx nv : Nat) :
     bvs_yield_cond lenb bs idx nv = yieldCond lenb bs (some nv) idx := by
-  simp only [bvs_yield_cond, yieldCond, isVolEnd, natCast_beq]
+  simp only [bvs_yield_cond, yieldCond, isVolEnd] <;> bool_bridge
 
 theorem bvs_advance_cond_eq (lenb bs idx nv : Nat) :
     bvs_advance_cond lenb bs idx nv = isVolEnd (some nv) idx := by
-  simp only [bvs_advance_cond, isVolEnd]
+  simp only [bvs_advance_cond, isVolEnd] <;> bool_bridge
 
 theorem bvs_end_value_eq (start stop bs : Int) : bvs_end_value start stop bs = stop := rfl
 
@@ -100,7 +107,7 @@ theorem seq_iter_is_indices_eq : seq_iter_is_indices = true := by decide
 theorem concat_elem_eq (i off : Int) : concat_elem i off = i + off := rfl
 
 theorem concat_yield_cond_eq (lenb bs : Nat) : concat_yield_cond lenb bs = (lenb == bs) := by
-  simp only [concat_yield_cond, natCast_beq]
+  simp only [concat_yield_cond] <;> bool_bridge
 
 theorem cumsum_append_eq (e s : Int) : cumsum_append e s = e + s := rfl
 theorem cumsum_next_eq (e s : Int) : cumsum_next e s = s + e := rfl
